@@ -26,6 +26,7 @@ pub enum Outcome {
     OpenErrIo,
     OpenErrCorruption,
     Panic(String),
+    OpenPanic(String),
     Timeout,
     None,
 }
@@ -46,12 +47,13 @@ impl Outcome {
             Outcome::OpenErrIo => "O err:io".into(),
             Outcome::OpenErrCorruption => "O err:corruption".into(),
             Outcome::Panic(_) => "R PANIC".into(),
+            Outcome::OpenPanic(_) => "O PANIC".into(),
             Outcome::Timeout => "R TIMEOUT".into(),
             Outcome::None => "".into(),
         }
     }
     pub fn is_panic(&self) -> bool {
-        matches!(self, Outcome::Panic(_) | Outcome::Timeout)
+        matches!(self, Outcome::Panic(_) | Outcome::OpenPanic(_) | Outcome::Timeout)
     }
 }
 
@@ -301,7 +303,7 @@ impl Real {
             Ok((res, events, io)) => {
                 let _ = handle.join();
                 let outcome = match res {
-                    Err(e) => Outcome::Panic(panic_msg(e)),
+                    Err(e) => Outcome::OpenPanic(panic_msg(e)),
                     Ok(Err(ReadRecordError::IoError(_))) => Outcome::OpenErrIo,
                     Ok(Err(ReadRecordError::Corruption)) => Outcome::OpenErrCorruption,
                     Ok(Ok(log)) => {
@@ -370,8 +372,14 @@ impl Real {
             }
             Op::State => match &self.log {
                 Some(log) => {
-                    let usage = log.resource_usage();
-                    out.extend(state_lines(&observe(log), &self.files(), usage.memory_used_bytes, usage.disk_used_bytes));
+                    let files = self.files();
+                    match catch_unwind(AssertUnwindSafe(|| {
+                        let usage = log.resource_usage();
+                        state_lines(&observe(log), &files, usage.memory_used_bytes, usage.disk_used_bytes)
+                    })) {
+                        Ok(lines) => out.extend(lines),
+                        Err(_) => out.push("S PANIC".into()),
+                    }
                 }
                 None => out.push("S closed".into()),
             },
